@@ -78,6 +78,8 @@ struct Editor<'a, 'c, 'd>
 	/// sites per kind (first pass)
 	per_kind: [usize; 8],
 	done: Option<Site>,
+	/// inside the condition of an `if`: a structure literal cannot be written there
+	in_condition: bool,
 }
 
 impl<'a, 'c, 'd> Editor<'a, 'c, 'd>
@@ -146,7 +148,7 @@ impl<'a, 'c, 'd> Editor<'a, 'c, 'd>
 				{
 					if let Some(Ty::Named(s)) = sig.get(i)
 					{
-						if self.structs[*s].word_bytes.is_none() && self.at_site(1)
+						if self.structs[*s].word_bytes.is_none() && !self.in_condition && self.at_site(1)
 						{
 							if let Some(lit) = self.literal_of_other_struct(*s)
 							{
@@ -296,8 +298,10 @@ impl<'a, 'c, 'd> Editor<'a, 'c, 'd>
 				}
 				else
 				{
+					self.in_condition = true;
 					self.expr(&mut cmp.left);
 					self.expr(&mut cmp.right);
+					self.in_condition = false;
 				}
 				self.branch(then);
 				if let Some(b) = els
@@ -357,6 +361,7 @@ pub fn break_one_type(prog: &mut Program, c: &mut Choices) -> Option<Site>
 			seen: 0,
 			per_kind: [0; 8],
 			done: None,
+			in_condition: false,
 		};
 		ed.program(&mut funcs);
 		ed.per_kind
@@ -381,6 +386,7 @@ pub fn break_one_type(prog: &mut Program, c: &mut Choices) -> Option<Site>
 			seen: 0,
 			per_kind: [0; 8],
 			done: None,
+			in_condition: false,
 		};
 		ed.program(&mut funcs);
 		ed.done
